@@ -36,24 +36,24 @@ import (
 )
 
 func init() {
-	addKMount("C05", func(tier string) int {
+	addKMountCounter("C05", func(tier string) int {
 		if tier == "thorough" {
 			return 64
 		}
 		return 6
-	}, runDrvC05)
-	addKMount("C08", func(tier string) int {
+	}, runDrvC05, "drvc_cases")
+	addKMountCounter("C08", func(tier string) int {
 		if tier == "thorough" {
 			return 48
 		}
 		return 6
-	}, runDrvC08)
-	addKMount("C01", func(tier string) int {
+	}, runDrvC08, "drvc_cases")
+	addKMountCounter("C01", func(tier string) int {
 		if tier == "thorough" {
 			return 48
 		}
 		return 4
-	}, runDrvC01)
+	}, runDrvC01, "drvc_cases")
 }
 
 type infoJSON struct {
